@@ -385,27 +385,28 @@ func detectFieldGrouping(c *Ctx, p *packages.Package, rel string, ts *ast.TypeSp
 			}
 		}
 	}
-	// then a unique leftover of the same type
+	// then the leftovers of each type, in declaration order (there must be as many old as new ones of that type)
 	for i, o := range old {
 		if match[i] >= 0 {
 			continue
 		}
+		nOld, nNew := 0, 0
+		for i2, o2 := range old {
+			if match[i2] < 0 && norm(o2.Type) == norm(o.Type) {
+				nOld++
+			}
+		}
 		cand := -1
 		for j, x := range cur {
 			if !used[j] && norm(x.typ) == norm(o.Type) {
-				if cand >= 0 {
-					return nil
+				nNew++
+				if cand < 0 {
+					cand = j
 				}
-				cand = j
 			}
 		}
-		if cand < 0 {
+		if cand < 0 || nOld != nNew {
 			return nil
-		}
-		for i2, o2 := range old {
-			if i2 != i && match[i2] < 0 && norm(o2.Type) == norm(o.Type) {
-				return nil
-			}
 		}
 		used[cand], match[i] = true, cand
 	}
